@@ -649,6 +649,12 @@ def inventory_tie(sites):
 # ----------------------------------------------------------------------------
 # correspondence with Model/Bounds.v
 # ----------------------------------------------------------------------------
+def cstr(t):
+    """Coq term of type list N (typed even when empty)."""
+    r = vlib.coq_str(t)
+    return "(@nil N)" if r == "[]" else r
+
+
 def zc(z):
     return "(%d)%%Z" % z
 
@@ -723,7 +729,7 @@ def correspondence(chk, thorough):
     pats |= {("", ""), ("", "*"), ("a", ""), ("", "?"), ("aaaaaaaaab", "*a*a*a*a*b"), ("aaaaaaaaaa", "*a*a*a*a*b"), ("abc", "a**c"), ("*", "*"), ("a*", "a*")}
     for name, pat in sorted(pats):
         req = mk_req('"%s" == "%s"' % (name, pat), "0\n", "yaml", "json", deadline_ms=8000)
-        cs.append(("(%s, %s)" % (vlib.coq_str(name), vlib.coq_str(pat)), req, lambda t: "t" if t.strip() == "true" else "f"))
+        cs.append(("(%s, %s)" % (cstr(name), cstr(pat)), req, lambda t: "t" if t.strip() == "true" else "f"))
     groups.append(("glob", "c_match", cs))
 
     # --- parseInt through an index in quotes
@@ -739,7 +745,7 @@ def correspondence(chk, thorough):
             continue
         seen.add(t)
         req = mk_req('.["%s"]' % t, doc20, "yaml", "json")
-        cs.append((vlib.coq_str(t), req, lambda x: x.strip()))
+        cs.append((cstr(t), req, lambda x: x.strip()))
     groups.append(("parseint", "c_parse_int_obs", cs))
 
     # --- repeat
